@@ -252,6 +252,7 @@ Definition k_expects (k : kont) (s : sub) : Prop :=
   | KComplete r => s = SStore [ReadPromise (cmr_id r)]
   | KCallback pid _ _ _ _ => s = SStore [ReadPromise pid]
   | KCallback_reread pid => s = SStore [ReadPromise pid]
+  | KCallback_ins _ cc => s = SStore [CreateCallback cc]
   | KReadP_to _ _ cmd => exists t, s = SStore (completion_txn cmd t)
   | KCreate_to _ _ _ _ cmd => exists t, s = SStore (completion_txn cmd t)
   | KComplete_up _ _ cmd _ => exists t, s = SStore (completion_txn cmd t)
